@@ -614,3 +614,295 @@ def pkg_from_sexp(case):
     fl = _field(["x"] + case[3:], "flags")
     cmdline = str(_field(fl, "cmdline")[1])
     return {"cmd": cmd, "pkg": "src" if cmd == "map" else "cs", "files": files}, cmdline.split(" ")[2:]
+
+
+# =================================================================================
+# C18: damaged inputs
+# =================================================================================
+
+REST_IMPORTS = 'import (\n\t"context"\n\t"net/http"\n\n\t"github.com/lopolopen/shoot"\n)\n'
+
+
+def base_new():
+    a = ('package cs\n\n//go:generate shoot new -getset -json -type=*\n\n// User is a user\ntype User struct {\n\t//shoot: new\n\tid int\n'
+         '\t//shoot: get; def=7\n\tage int `json:"age"`\n\tname string\n\tBase\n}\n')
+    b = 'package cs\n\ntype Base struct {\n\t//shoot: get\n\tcode string\n}\n\ntype Pair[K comparable, V any] struct {\n\tkey K\n\tval V\n}\n'
+    return {"files": {"a.go": a, "b.go": b}, "cwd": ".", "cmd": "new", "flags": ["-getset", "-json"], "good": ["User", "Base"],
+            "star_line": "shoot new -getset -json -type=*"}
+
+
+def base_enum():
+    a = ('package cs\n\n//go:generate shoot enum -json -type=*\n\ntype Color int\n\nconst (\n\tRed Color = iota + 1\n\tGreen\n\tBlue\n)\n\n'
+         'type Name string\n')
+    b = 'package cs\n\ntype Level uint32\n\nconst (\n\tLow Level = 1\n\tHigh Level = 2\n)\n\ntype Empty int\n'
+    return {"files": {"a.go": a, "b.go": b}, "cwd": ".", "cmd": "enum", "flags": ["-json"], "good": ["Color", "Level"],
+            "star_line": "shoot enum -json -type=*"}
+
+
+def base_rest():
+    a = ('package cs\n\n' + REST_IMPORTS + '\n//go:generate shoot rest -type=*\n\ntype User struct {\n\tName string\n\tAge  *int\n}\n\n'
+         '//shoot: headers={X-App:demo}\ntype Client interface {\n\tshoot.RestClient[Client]\n\n'
+         '\t//shoot: Get("/users/{id}")\n\tGetUser(ctx context.Context, id string, size int) (*User, *http.Response, error)\n\n'
+         '\t//shoot: Post("/users")\n\tAddUser(ctx context.Context, u *User) (*http.Response, error)\n\n'
+         '\t//shoot: Delete("/users/{userID:id}")\n\tDelUser(ctx context.Context, userID int) (*http.Response, error)\n}\n')
+    b = 'package cs\n\ntype Plain interface {\n\tDo() error\n}\n\ntype Thing struct {\n\tn int\n}\n'
+    return {"files": {"a.go": a, "b.go": b}, "cwd": ".", "cmd": "rest", "flags": [], "good": ["Client"], "star_line": "shoot rest -type=*"}
+
+
+def base_map():
+    a = ('package src\n\nimport "verifcases/CASE/dest"\n\n//go:generate shoot map -path=../dest -type=*\n\ntype Order struct {\n\tID    int\n\tName  string\n'
+         '\tTotal int64 `map:"Sum"`\n\tnote  string\n}\n\nfunc (o *Order) writeDest(d *dest.Order) {\n\td.Note = o.note\n}\n')
+    b = 'package src\n\ntype User struct {\n\tID   int\n\tNick *string\n}\n\ntype NoDest struct {\n\tA int\n}\n\ntype Name string\n'
+    d = ('package dest\n\ntype Order struct {\n\tID   int\n\tName string\n\tSum  int64\n\tNote string\n}\n\ntype User struct {\n\tID   int\n\tNick *string\n}\n')
+    return {"files": {"src/a.go": a, "src/b.go": b, "dest/d.go": d}, "cwd": "src", "cmd": "map", "flags": ["-path=../dest"],
+            "good": ["Order", "User"], "star_line": "shoot map -path=../dest -type=*"}
+
+
+BASES = {"new": base_new, "enum": base_enum, "rest": base_rest, "map": base_map}
+
+
+def src_key(base, name):
+    return ("src/" if base["cmd"] == "map" else "") + name
+
+
+def sub(base, fname, old, new, count=1):
+    k = src_key(base, fname)
+    assert old in base["files"][k], (old, k)
+    base["files"][k] = base["files"][k].replace(old, new, count)
+
+
+def c18_case(cid, base, args, damage, outs=(), stale=(), tags=()):
+    """args: full argv after the binary (sub-command included)"""
+    files = {k: v.replace("verifcases/CASE/", "verifcases/c_%s/" % cid) for k, v in base["files"].items()}
+    x = ["case", cid, "cli18", ["cmd", base["cmd"]], ["damage", damage]]
+    if outs:
+        x.append(["outs"] + [Q(o) for o in outs])
+    if stale:
+        x.append(["stale"] + [Q(o) for o in stale])
+    return {"id": cid, "files": files, "runs": [{"args": list(args), "cwd": base["cwd"]}], "cwd": base["cwd"], "damage": damage,
+            "sexp": sexp.dump(x), "cmd": "cd <pkgdir> && shoot " + " ".join(args), "tags": [damage] + list(tags), "pcmd": base["cmd"]}
+
+
+TOKEN_RE = re.compile(r'//[^\n]*|`[^`]*`|"(?:[^"\\\n]|\\.)*"|[A-Za-z_][A-Za-z0-9_]*|\d+|[^\sA-Za-z0-9_]')
+
+
+def tokens(src):
+    return [(m.start(), m.end()) for m in TOKEN_RE.finditer(src)]
+
+
+def damage_cases(rng, quick=True):
+    """structured damage (predicted by the Lean classifier) + unpredicted damage (property only).
+    The unpredicted stream is enumerated deterministically (independent of the seed) so that a run on the
+    unchanged tree never meets an input that was not met while the check was built."""
+    cases = []
+    n = [0]
+
+    def add(base, args, damage, outs=(), stale=(), tags=()):
+        cases.append(c18_case("d%d" % n[0], base, args, damage, outs, stale, tags))
+        n[0] += 1
+
+    for cmd in CMDS:
+        B = BASES[cmd]
+        g0 = B()["good"][0]
+        fl = B()["flags"]
+        sel = ["-type=" + g0]
+        # ---- valid runs ----
+        add(B(), [cmd] + fl + sel, "none", outs=["x"])
+        add(B(), [cmd] + fl + ["-type=*"], "none", outs=["x"])
+        add(B(), [cmd] + fl + ["-file=a.go"], "none", outs=["x"])
+        # ---- flags phase ----
+        add(B(), [], "noArgs")
+        add(B(), ["bogus"] + sel, "unknownSub")
+        add(B(), [cmd], "noSelection")
+        add(B(), [cmd, "-sep"], "noSelection")
+        add(B(), [cmd] + fl, "noSelection") if fl and cmd != "map" else None
+        add(B(), [cmd, "-bogus"] + sel, "unknownFlag")
+        add(B(), [cmd, "-s"] + fl + sel, "unknownFlag", tags=["documented -s"])
+        add(B(), [cmd, "-sep=maybe"] + fl + sel, "badFlagValue")
+        add(B(), [cmd] + fl + ["-file=a.txt"], "fileNotGo")
+        add(B(), [cmd] + fl + ["-file=zz.go"], "fileMissing")
+        add(B(), [cmd] + fl + sel + ["nosuchdir"], "dirMissing")
+        # ---- generate phase ----
+        add(B(), [cmd] + fl + ["-type=Missing"], "typeMissing", outs=["x"] if cmd == "rest" else [])
+        add(B(), [cmd] + fl + ["-type=%s,Missing" % g0], "typeMissing", outs=["x"] if cmd in ("rest", "enum") else [])
+        wrong = {"new": "Pair2", "enum": "Name", "rest": "Plain", "map": "Name"}[cmd]
+        b = B()
+        if cmd == "new":
+            sub(b, "b.go", "type Base struct", "type Pair2 map[string]int\n\ntype Base struct")
+        add(b, [cmd] + fl + ["-type=" + wrong], "wrongKind", outs=["x"] if cmd == "rest" else [])
+        other = {"new": "Base", "enum": "Level", "rest": "Plain", "map": "User"}[cmd]
+        add(B(), [cmd] + fl + ["-file=a.go", "-type=" + other], "notInFile")
+        # ---- load phase ----
+        b = B()
+        b["files"][src_key(b, "zz.go")] = "package other\n\ntype Z struct{}\n"
+        add(b, [cmd] + fl + sel, "twoPackages")
+        # ---- clean phase ----
+        b = B()
+        tag = "shoot" + cmd
+        b["files"][src_key(b, "z.%s.old.go" % tag)] = "package " + ("src" if cmd == "map" else "cs")   # no newline
+        add(b, [cmd] + fl + ["-type=*"], "cleanNoNewline", outs=["x"], stale=["z"])
+        b = B()
+        b["files"][src_key(b, "z.%s.old.go" % tag)] = ""
+        if cmd == "rest":    # rest parses every file of the directory itself and stops at the empty one
+            add(b, [cmd] + fl + ["-type=*"], "restParseFail", tags=["empty stale file"])
+        else:
+            add(b, [cmd] + fl + ["-type=*"], "cleanNoNewline", outs=["x"], stale=["z"], tags=["empty stale file"])
+
+    # ---- sub-command specific ----
+    add(base_new(), ["new", "-tagcase=x", "-type=User"], "badFlagValue")
+    b = base_new()
+    sub(b, "a.go", "\tname string\n", "\t//shoot: get\n\tName string\n")
+    add(b, ["new", "-getset", "-type=User"], "exportedGetFlag")
+    add(base_new(), ["new", "-opt", "-type=Pair"], "formatFail", tags=["-opt on a generic struct"])
+    b = base_new()
+    sub(b, "b.go", "type Pair[", "type BaseSetter[T any] interface {\n\tSetCode(T)\n}\n\ntype Pair[")
+    add(b, ["new", "-getset", "-type=User"], "setterIface")
+    b = base_new()
+    sub(b, "b.go", "type Pair[", "type BaseGetter[T any] interface {\n\tCode() T\n}\n\ntype Pair[")
+    add(b, ["new", "-getset", "-type=User"], "none", outs=["x"], tags=["generic getter interface"])
+
+    add(base_enum(), ["enum", "-gorm", "-type=Color"], "gormNoSql")
+    add(base_enum(), ["enum", "-sql", "-gorm", "-type=Color"], "none", outs=["x"])
+    add(base_enum(), ["enum", "-type=Empty"], "typeMissing", tags=["integer type without constants"])
+
+    add(base_map(), ["map", "-way=x", "-path=../dest", "-type=Order"], "badFlagValue")
+    add(base_map(), ["map", "-path=../dest", "-to=A", "-file=a.go"], "toNoType")
+    add(base_map(), ["map", "-path=../dest", "-type=Order", "-to=A,B"], "toMisaligned")
+    add(base_map(), ["map", "-path=../nodest", "-type=Order"], "destDirMissing")
+    add(base_map(), ["map", "-path=../dest", "-type=NoDest"], "typeMissing", tags=["dest type missing"])
+    b = base_map()
+    sub(b, "a.go", "func (o *Order) writeDest(d *dest.Order)", "func (o Order) writeDest(d *dest.Order)")
+    add(b, ["map", "-path=../dest", "-type=Order"], "valueRecv")
+    b = base_map()
+    sub(b, "b.go", "type Name string", "type Name string\n\nfunc (n Name) toDest() string { return string(n) }")
+    add(b, ["map", "-path=../dest", "-type=User"], "valueRecv", tags=["value receiver on another type"])
+    b = base_map()
+    sub(b, "a.go", "func (o *Order) writeDest(d *dest.Order)", "func (o *Order) writeDest(*dest.Order)")
+    add(b, ["map", "-path=../dest", "-type=Order"], "manualUnnamed", tags=["unnamed parameter"])
+    b = base_map()
+    sub(b, "a.go", "func (o *Order) writeDest(d *dest.Order) {\n\td.Note = o.note\n}", "func (*Order) readDest(d dest.Order) {\n}")
+    add(b, ["map", "-path=../dest", "-type=Order"], "manualUnnamed", tags=["unnamed receiver"])
+    b = base_map()
+    sub(b, "a.go", "func (o *Order) writeDest(d *dest.Order) {\n\td.Note = o.note\n}", "func (o *Order) writeDest(d *dest.Order)")
+    add(b, ["map", "-path=../dest", "-type=Order"], "manualNoBody")
+    b = base_map()
+    sub(b, "a.go", "func (o *Order) writeDest(d *dest.Order)", "func (o *Order) writeDest(d dest.Order)")
+    add(b, ["map", "-path=../dest", "-type=Order"], "manualBadParam")
+    b = base_map()
+    b["files"]["src/a.go"] += "\nfunc (o *Order) toDest(d *dest.Order) {\n\td.Name = o.Name\n}\n"
+    add(b, ["map", "-path=../dest", "-type=Order"], "manualTwice")
+
+    for old, new, tag in [
+            ("(*User, *http.Response, error)", "error", "one result"),
+            ("(*User, *http.Response, error)", "(*User, int, *http.Response, error)", "four results"),
+            ("(*User, *http.Response, error)", "(*User, http.Response, error)", "response not a pointer"),
+            ("(*User, *http.Response, error)", "(*User, *http.Response, string)", "last not error"),
+            ("(*User, *http.Response, error)", "(u *User, r *http.Response, err error)", "named results")]:
+        b = base_rest()
+        sub(b, "a.go", old, new)
+        add(b, ["rest", "-type=Client"], "restResults", tags=[tag])
+    b = base_rest()
+    sub(b, "b.go", "type Plain interface {\n", "type Plain interface {\n\terror\n")
+    add(b, ["rest", "-type=*"], "univEmbed")
+    b = base_rest()
+    sub(b, "a.go", "\tshoot.RestClient[Client]\n", "\terror\n\tshoot.RestClient[Client]\n")
+    add(b, ["rest", "-type=Client"], "univEmbed", tags=["named interface, error first"])
+    b = base_rest()
+    sub(b, "a.go", "\tshoot.RestClient[Client]\n", "\tshoot.RestClient[Client]\n\terror\n")
+    add(b, ["rest", "-type=Client"], "none", outs=["x"], tags=["error after RestClient"])
+    b = base_rest()
+    sub(b, "a.go", "AddUser(ctx context.Context, u *User)", "AddUser(u *User)")
+    add(b, ["rest", "-type=Client"], "formatFail", tags=["mixed ctx / no-ctx methods"])
+
+    npred = len(cases)
+    # ---- unpredicted: shoot does not look at these (type errors, odd directives); only the property is evaluated ----
+    U = []
+
+    def un(base, args, tag):
+        U.append((base, args, tag))
+
+    for old, new, tag in [
+            ("\tid int\n", "\tid Undefined\n", "undefined field type"),
+            ("def=7", 'def="seven"', "ill-typed default"),
+            ("\tname string\n", "\tname string\n\tname int\n", "duplicate field"),
+            ("//shoot: new", "//shoot:new", "directive without space"),
+            ("//shoot: get; def=7", "//shoot: get;; def=", "empty default"),
+            ("//shoot: get; def=7", "//shoot: bogus; set; get", "unknown directive word"),
+            ("//shoot: get; def=7", "//shoot: def={a:b", "unbalanced brace"),
+            ('`json:"age"`', '`json:"age`', "malformed tag"),
+            ('`json:"age"`', '`json:",omitempty" new:"-"`', "tag options"),
+            ("\tBase\n", "\terror\n", "embedded universe type"),
+            ("\tBase\n", "\t*Base\n\tfmtStringer\n", "embedded interface"),
+            ("\tBase\n", "\tPair[string, int]\n", "embedded instantiated generic"),
+            ("type User struct", "type User[T any] struct", "type parameter added"),
+            ("\tBase\n", "\tBase\n\tf func(int) string\n\tc chan int\n\tm map[string][]*Base\n", "func/chan/map fields")]:
+        b = base_new()
+        sub(b, "a.go", old, new)
+        if "fmtStringer" in new:
+            b["files"]["b.go"] += "\ntype fmtStringer interface {\n\tString() string\n}\n"
+        un(b, ["new", "-getset", "-json", "-type=User"], tag)
+        un(b, ["new", "-opt", "-short", "-type=*"], tag + " (-opt)")
+    for old, new, tag in [
+            ("Red Color = iota + 1", "Red Color = -1", "negative value"),
+            ("Red Color = iota + 1", 'Red Color = "x"', "ill-typed constant"),
+            ("\tGreen\n", "\tGreen\n\tGreen\n", "duplicate constant"),
+            ("\tGreen\n", "\tGreen = Red\n", "duplicate value"),
+            ("type Color int", "type Color = int", "alias"),
+            ("type Color int", "type Color float64", "float enum")]:
+        b = base_enum()
+        sub(b, "a.go", old, new)
+        un(b, ["enum", "-json", "-text", "-type=Color"], tag)
+        un(b, ["enum", "-bit", "-sql", "-type=*"], tag + " (-bit)")
+    for old, new, tag in [
+            ('Get("/users/{id}")', 'Get(/users/{id})', "path not quoted"),
+            ('Get("/users/{id}")', 'Get("/users/{id")', "unbalanced placeholder"),
+            ('Get("/users/{id}")', 'Fetch("/users/{id}")', "unknown verb"),
+            ('Get("/users/{id}")', 'Get("/users/{nope}")', "placeholder without parameter"),
+            ("//shoot: headers={X-App:demo}", "//shoot: headers={X-App:demo", "unbalanced headers"),
+            ("id string, size int", "id []string, size func() int", "slice and func params"),
+            ("id string, size int", "id string, size map[string]int, q chan int", "map and chan params"),
+            ("u *User", "u *User, v *User", "two body params"),
+            ("u *User", "u User, n int", "value body param"),
+            ("(*User, *http.Response, error)", "([]*User, *http.Response, error)", "slice result"),
+            ("(*User, *http.Response, error)", "(map[string]User, *http.Response, error)", "map result"),
+            ("(*User, *http.Response, error)", "(Undefined, *http.Response, error)", "undefined result type"),
+            ("\tshoot.RestClient[Client]\n", "\tshoot.RestClient[Plain]\n", "wrong type argument"),
+            ('\t//shoot: Post("/users")\n', "", "method without directive")]:
+        b = base_rest()
+        sub(b, "a.go", old, new)
+        un(b, ["rest", "-type=Client"], tag)
+    for fname, old, new, tag in [
+            ("a.go", "\tID    int\n", "\tID    Undefined\n", "undefined field type"),
+            ("a.go", '`map:"Sum"`', '`map:"Sum`', "malformed tag"),
+            ("a.go", '`map:"Sum"`', '`map:"-"`', "skipped field"),
+            ("a.go", "\tnote  string\n", "\tnote  string\n\terror\n", "embedded universe type"),
+            ("a.go", "d.Note = o.note", "", "empty manual method"),
+            ("a.go", "func (o *Order) writeDest(d *dest.Order)", "func (*Order) writeDest(d *dest.Order)", "unnamed receiver (write)"),
+            ("a.go", "func (o *Order) writeDest(d *dest.Order)", "func (o *Order) writeDest(*dest.Order)", "unnamed parameter (write)"),
+            ("a.go", "func (o *Order) writeDest(d *dest.Order) {\n\td.Note = o.note\n}",
+             "func (o *Order) readDest(d dest.Order) {\n\to.note = d.Note\n}", "manual read method"),
+            ("a.go", "func (o *Order) writeDest(d *dest.Order) {\n\td.Note = o.note\n}",
+             "func (*Order) readDest(d dest.Order) {\n}", "unnamed receiver (read)"),
+            ("a.go", "func (o *Order) writeDest(d *dest.Order)", "func (o *Order) writeDest(d *dest.Order, n int)", "two parameters"),
+            ("b.go", "\tNick *string\n", "\tNick **string\n", "pointer to pointer")]:
+        b = base_map()
+        sub(b, fname, old, new)
+        un(b, ["map", "-path=../dest", "-type=Order,User"], tag)
+        un(b, ["map", "-path=../dest", "-i", "-alias=d", "-type=*"], tag + " (-type=*)")
+    # token deletion: every token of the hand-written files of each base (quick: every 3rd)
+    for cmd in CMDS:
+        b0 = BASES[cmd]()
+        for fname in sorted(b0["files"]):
+            toks = tokens(b0["files"][fname])
+            step = 3 if quick else 1
+            for ti in range(0, len(toks), step):
+                b = BASES[cmd]()
+                s, e = toks[ti]
+                src = b["files"][fname]
+                b["files"][fname] = src[:s] + src[e:]
+                un(b, [cmd] + b["flags"] + [["-type=" + ",".join(b["good"])], ["-type=*"]][ti % 2], "token %d of %s deleted" % (ti, fname))
+    for base, args, tag in U:
+        cases.append(c18_case("u%d" % n[0], base, args, "unpredicted", tags=[tag.split(" of ")[0] if tag.startswith("token") else tag]))
+        cases[-1]["utag"] = tag
+        n[0] += 1
+    return cases, npred
